@@ -346,6 +346,17 @@ impl SpeedLimitTrainSim {
                 )
             );
             self.step()?;
+            // a train at rest whose target speed is zero can never leave this loop
+            ensure!(
+                self.state.speed != si::Velocity::ZERO
+                    || self.state.speed_target != si::Velocity::ZERO
+                    || self.state.offset >= self.path_tpc.offset_end() - 1000.0 * uc::FT,
+                "{}
+Train came to rest at offset {:?} before reaching the stopping window at the end of its path ({:?})",
+                format_dbg!(),
+                self.state.offset,
+                self.path_tpc.offset_end()
+            );
         }
         Ok(())
     }
